@@ -55,7 +55,19 @@ def get_sites(ctx):
     try:
         return interleave.sites(ctx.repo)
     except AnchorError:
-        return [("default", 45, 92, 368), ("decoder", 45, 92, 368)]
+        # the instantiation sites could not be read from the current source: the reference translation's list (same fallback as
+        # vlib.Ctx.step_consts); every site is compiled into the harness with these arguments and compared with the model
+        import re as _re
+        from vlib import REF
+        ref = (REF / "ConstsInterleave.v").read_text() if (REF / "ConstsInterleave.v").exists() else ""
+        d = _re.search(r"il_default\w*\s*:[^=]*:=\s*\((\d+),\s*(\d+),\s*(\d+)\)", ref)
+        m = _re.search(r"il_sites[^=]*:=\s*\[(.*?)\]", ref)
+        trip = [tuple(int(x) for x in t) for t in _re.findall(r"\((\d+),\s*(\d+),\s*(\d+)\)", m.group(1))] if m else []
+        if not trip:
+            return [("default", 45, 92, 368), ("decoder", 45, 92, 368)]
+        names = ["decoder", "modulator"] + [f"mod{i}" for i in range(len(trip))]
+        dflt = tuple(int(x) for x in d.groups()) if d else trip[0]
+        return [("default",) + dflt] + [(n,) + t for n, t in zip(names, trip)]
 
 
 def py_pi(i):
